@@ -72,6 +72,38 @@ func main() {
 	ex.DefNat("bits030", math.Float64bits(0.3))
 	ex.DefNat("bits035", math.Float64bits(0.35))
 	ex.DefNat("bits025", math.Float64bits(0.25))
+	// the fixed reward addresses of every built-in network preset (coinbase rule: CR share -> CR assets
+	// address, DPoS share -> stake REWARD address, POW mode -> destroy address)
+	addr := func(h interface{ ToAddress() (string, error) }) string {
+		if h == nil {
+			return "nil"
+		}
+		a, err := h.ToAddress()
+		if err != nil {
+			return "err"
+		}
+		return a
+	}
+	fmt.Println("structure NetAddrs where\n  net : String\n  dposV2Reward : String\n  crAssets : String\n  destroy : String\n  stakePool : String\n  deriving DecidableEq, Repr")
+	fmt.Println("def netAddrs : List NetAddrs := [")
+	nets := []struct {
+		n string
+		p *config.Configuration
+	}{{"mainnet", config.GetDefaultParams()}, {"testnet", config.GetDefaultParams().TestNet()}, {"regnet", config.GetDefaultParams().RegNet()}}
+	for i, n := range nets {
+		sep := ","
+		if i == len(nets)-1 {
+			sep = ""
+		}
+		fmt.Printf("  { net := %s, dposV2Reward := %s, crAssets := %s, destroy := %s, stakePool := %s }%s\n", ex.LeanStr(n.n),
+			ex.LeanStr(addr(n.p.DPoSConfiguration.DPoSV2RewardAccumulateProgramHash)), ex.LeanStr(addr(n.p.CRConfiguration.CRAssetsProgramHash)),
+			ex.LeanStr(addr(n.p.DestroyELAProgramHash)), ex.LeanStr(addr(n.p.StakePoolProgramHash)), sep)
+	}
+	fmt.Println("]")
+	ex.DefStr("stakeRewardAddress", addr(config.StakeRewardProgramHash))
+	ex.DefStr("stakePoolAddress", addr(config.StakePoolProgramHash))
+	ex.DefStr("crAssetsAddress", addr(config.CRAssetsProgramHash))
+	ex.DefStr("destroyAddress", addr(config.DestroyELAProgramHash))
 	ex.DefStr("dposRewardExpr", bv.Src(bv.MustFunc("BlockChain.GetBlockDPOSReward").Body))
 	ex.Footer("C11")
 }
